@@ -12,6 +12,7 @@ let cli_view exts =
   if parts = [] then "-" else String.concat "+" parts
 
 let install register get getn geti getb =
+  register "pflags" (fun kv -> "pf=" ^ hex_of_n (toPflags (getn kv "f")));
   ignore getn; ignore geti; ignore getb;
   register "setext" (fun kv ->
     let seq = get kv "seq" in
